@@ -115,11 +115,13 @@ def drive_ops(tier, seed):
     evs = []
     saved = dict(reg._REGISTRY)
     ids = ["Probe-v0", "Probe-v1", "Other_x-v3"]
-    eps = {"P": "harness.lib.reg_drive:ProbeEnv", "Q": "harness.lib.reg_drive:ProbeEnv2"}
+    eps = {"P": "harness.lib.reg_drive:ProbeEnv", "Q": "harness.lib.reg_drive:ProbeEnv2",
+           "R": "harness.lib.reg_other:ProbeEnv"}        # R: another module's class with the same bare name as P's
     ops = []
     for i in ids:
         ops.append(("register", i, "P", {"x": 1, "y": 2}))
         ops.append(("register", i, "Q", {}))
+        ops.append(("register", i, "R", {"x": 3}))
         ops.append(("make", i, None, {}))
         ops.append(("make", i, None, {"y": 5, "z": 6}))
     # non-canonical spellings of a version (leading zeros): the registry is keyed by (name, int(version))
@@ -163,7 +165,7 @@ def drive_ops(tier, seed):
                     try:
                         e = reg.make(i, **kw)
                         oc = "ok"
-                        cls = type(e).__name__
+                        cls = type(e).__module__.split(".")[-1] + ":" + type(e).__name__
                         seen = sorted(e.kwargs.items())
                         msg_ids = []
                     except ValueError as ex:
